@@ -1,5 +1,6 @@
 import Anysystem.Model.Sim
 import Anysystem.Spec.TimeLaws
+import Anysystem.Proofs.SimNetLemmas
 /-!
 # The simulated network (C05) and the bookkeeping of sends (C17)
 -/
@@ -8,7 +9,30 @@ namespace Anysystem
 variable {σ T : Type} [TimeOps T]
 
 /-- the `Ticks` instance is lawful (draws are ticks out of 1000) -/
-instance : LawfulTime Ticks := sorry
+instance : LawfulTime Ticks where
+  isDraw r := r.n < 1000
+  le_refl a := by simp [TimeOps.le]
+  le_trans a b c := by simp only [TimeOps.le, decide_eq_true_eq]; omega
+  le_total a b := by simp only [TimeOps.le, decide_eq_true_eq]; omega
+  le_antisymm a b := by
+    cases a; cases b
+    simp only [TimeOps.le, decide_eq_true_eq, Ticks.mk.injEq]; omega
+  lt_iff a b := by
+    simp only [TimeOps.lt, TimeOps.le, decide_eq_true_eq, decide_eq_false_iff_not]; omega
+  add_zero a := by cases a; simp [TimeOps.add, TimeOps.zero]
+  le_add a d := by simp only [TimeOps.le, TimeOps.add, decide_eq_true_eq]; omega
+  add_mono a b c := by simp only [TimeOps.le, TimeOps.add, decide_eq_true_eq]; omega
+  scale_bounds lo hi r := by
+    simp only [TimeOps.le, TimeOps.add, TimeOps.mul, TimeOps.sub, decide_eq_true_eq]
+    intro h hr
+    have h1 : r.n * (hi.n - lo.n) / 1000 ≤ hi.n - lo.n :=
+      Nat.div_le_of_le_mul (Nat.mul_le_mul_right _ (Nat.le_of_lt hr))
+    omega
+  draw_nonneg r _ := by simp [TimeOps.le, TimeOps.zero]
+  copies_bounds r := by
+    simp only [TimeOps.copies]
+    intro h
+    omega
 
 namespace Sim
 
@@ -19,6 +43,37 @@ def pathCut (s : Sim σ T) (sn dn : Nat) : Bool :=
 /-- the events a send adds to the queue -/
 def added (s s' : Sim σ T) : List (QEv T) := s'.events.drop s.events.length
 
+theorem sendDropped_eq (s : Sim σ T) (sn dn : Nat) :
+    s.sendDropped sn dn = (TimeOps.lt (dr s.draws 0) s.net.dropRate || s.pathCut sn dn) := by
+  simp [sendDropped, pathCut, Bool.or_assoc]
+
+/-- a cross-node send, dropped -/
+theorem cross_dropped (s : Sim σ T) (m : Msg) (src dst sn dn tipLen : Nat) (h : s.sendDropped sn dn = true) :
+    crossResult s m src dst sn dn tipLen =
+      { s with draws := s.draws.drop 1, net := s.crossNet m tipLen,
+               trace := s.trace ++ [.sent s.clock s.net.messageCount sn src dn dst m,
+                                    .dropped s.clock s.net.messageCount sn src dn dst m] } := by
+  simp [crossResult, h]
+
+/-- a cross-node send, not dropped -/
+theorem cross_passed (s : Sim σ T) (m : Msg) (src dst sn dn tipLen : Nat) (h : s.sendDropped sn dn = false) :
+    crossResult s m src dst sn dn tipLen =
+      { s with draws := s.draws.drop (s.sendBase + s.sendCount), eventCount := s.eventCount + s.sendCount,
+               net := s.crossNet m tipLen,
+               trace := s.trace ++ [.sent s.clock s.net.messageCount sn src dn dst m],
+               events := s.events ++ (List.range s.sendCount).map
+                 (copyEv s (.msg s.net.messageCount (s.sendPayload m) src sn dst dn) sn dn s.sendBase) } := by
+  simp [crossResult, h]
+
+theorem added_cross_dropped (s : Sim σ T) (m : Msg) (src dst sn dn tipLen : Nat) (h : s.sendDropped sn dn = true) :
+    added s (crossResult s m src dst sn dn tipLen) = [] := by
+  simp [added, cross_dropped _ _ _ _ _ _ _ h]
+
+theorem added_cross_passed (s : Sim σ T) (m : Msg) (src dst sn dn tipLen : Nat) (h : s.sendDropped sn dn = false) :
+    added s (crossResult s m src dst sn dn tipLen) = (List.range s.sendCount).map
+      (copyEv s (.msg s.net.messageCount (s.sendPayload m) src sn dst dn) sn dn s.sendBase) := by
+  simp [added, cross_passed _ _ _ _ _ _ _ h]
+
 /-- messages inside a node: delivered once, intact, with zero delay, no draw consumed, not counted as
     network traffic -/
 theorem send_same_node (s s' : Sim σ T) (m : Msg) (src dst n tipLen : Nat)
@@ -27,7 +82,10 @@ theorem send_same_node (s s' : Sim σ T) (m : Msg) (src dst n tipLen : Nat)
     s'.events = s.events ++ [⟨s.eventCount, TimeOps.add s.clock TimeOps.zero, n, n, .msg s.net.messageCount m src n dst n⟩] ∧
     s'.draws = s.draws ∧ s'.net.networkMessageCount = s.net.networkMessageCount ∧ s'.net.traffic = s.net.traffic ∧
     s'.net.messageCount = s.net.messageCount + 1 ∧
-    s'.trace = s.trace ++ [.sent s.clock s.net.messageCount n src n dst m] := sorry
+    s'.trace = s.trace ++ [.sent s.clock s.net.messageCount n src n dst m] := by
+  rw [sendMessage_same s m src dst n tipLen hs hd] at h
+  cases h
+  simp
 
 /-- a cross-node send over a disabled path (sender's outgoing, receiver's incoming, or the directed
     link): nothing is queued, the loss is logged, exactly one draw is consumed -/
@@ -36,7 +94,12 @@ theorem send_cut_dropped (s s' : Sim σ T) (m : Msg) (src dst sn dn tipLen : Nat
     (hcut : s.pathCut sn dn = true) (h : s.sendMessage m src dst tipLen = .ok s') :
     s'.events = s.events ∧ s'.draws = s.draws.drop 1 ∧
     s'.trace = s.trace ++ [.sent s.clock s.net.messageCount sn src dn dst m, .dropped s.clock s.net.messageCount sn src dn dst m] ∧
-    s'.net.networkMessageCount = s.net.networkMessageCount + 1 ∧ s'.net.traffic = s.net.traffic + (tipLen + m.data.length) := sorry
+    s'.net.networkMessageCount = s.net.networkMessageCount + 1 ∧ s'.net.traffic = s.net.traffic + (tipLen + m.data.length) := by
+  rw [sendMessage_cross s m src dst sn dn tipLen hs hd hne] at h
+  cases h
+  have hdr : s.sendDropped sn dn = true := by rw [sendDropped_eq, hcut, Bool.or_true]
+  rw [cross_dropped _ _ _ _ _ _ _ hdr]
+  simp [crossNet, msgSize]
 
 /-- whatever is queued by a cross-node send: between 0 and 3 copies of the same message id, each
     carrying the payload sent or its canonical corruption (the latter only if the corruption rate is
@@ -51,57 +114,146 @@ theorem send_copies [LawfulTime T] (s s' : Sim σ T) (m : Msg) (src dst sn dn ti
       (e.data = .msg s.net.messageCount m src sn dst dn ∨
        (e.data = .msg s.net.messageCount (corruptSim m) src sn dst dn ∧ TimeOps.lt TimeOps.zero s.net.corruptRate = true)) ∧
       TimeOps.le (TimeOps.add s.clock s.net.minDelay) e.time = true ∧
-      TimeOps.le e.time (TimeOps.add s.clock s.net.maxDelay) = true := sorry
+      TimeOps.le e.time (TimeOps.add s.clock s.net.maxDelay) = true := by
+  rw [sendMessage_cross s m src dst sn dn tipLen hs hd hne] at h
+  cases h
+  cases hdr : s.sendDropped sn dn with
+  | true =>
+    rw [added_cross_dropped _ _ _ _ _ _ _ hdr, cross_dropped _ _ _ _ _ _ _ hdr]
+    simp
+  | false =>
+    have hcnt := sendCount_bounds s hdraws (by omega)
+    have hbase := sendBase_le s
+    rw [added_cross_passed _ _ _ _ _ _ _ hdr]
+    refine ⟨by simpa using hcnt.2, by rw [cross_passed _ _ _ _ _ _ _ hdr], ?_⟩
+    intro e he
+    obtain ⟨i, hi, rfl⟩ := List.mem_map.1 he
+    have hi' : i < s.sendCount := List.mem_range.1 hi
+    refine ⟨rfl, rfl, ?_, ?_⟩
+    · show QData.msg _ (s.sendPayload m) _ _ _ _ = _ ∨ _
+      unfold sendPayload
+      split
+      · rename_i hc
+        right
+        refine ⟨rfl, ?_⟩
+        -- the corruption rate is above a non-negative draw, hence positive
+        cases hz : TimeOps.lt TimeOps.zero s.net.corruptRate with
+        | true => rfl
+        | false =>
+          exfalso
+          have h1 : TimeOps.le s.net.corruptRate TimeOps.zero = true := by
+            cases hle : TimeOps.le s.net.corruptRate TimeOps.zero with
+            | true => rfl
+            | false => rw [(LawfulTime.lt_iff _ _).2 hle] at hz; cases hz
+          have h2 := LawfulTime.le_trans _ _ _ h1 (dr_nonneg s.draws hdraws 1)
+          rw [(LawfulTime.lt_iff _ _).1 hc] at h2
+          cases h2
+      · left; rfl
+    · have hdrw : LawfulTime.isDraw (dr s.draws (s.sendBase + i)) :=
+        hdraws _ (dr_mem _ _ (by omega))
+      have hb := LawfulTime.scale_bounds s.net.minDelay s.net.maxDelay _ hdel hdrw
+      exact ⟨LawfulTime.add_mono _ _ _ hb.1, LawfulTime.add_mono _ _ _ hb.2⟩
 
 /-- duplication rate 0: at most one copy -/
 theorem send_no_dupl [LawfulTime T] (s s' : Sim σ T) (m : Msg) (src dst sn dn tipLen : Nat)
     (hs : amGet? src s.net.procLoc = some sn) (hd : amGet? dst s.net.procLoc = some dn)
     (hdraws : ∀ r ∈ s.draws, LawfulTime.isDraw r) (hz : s.net.duplRate = TimeOps.zero)
-    (h : s.sendMessage m src dst tipLen = .ok s') : (added s s').length ≤ 1 := sorry
+    (h : s.sendMessage m src dst tipLen = .ok s') : (added s s').length ≤ 1 := by
+  by_cases hne : sn = dn
+  · subst hne
+    rw [sendMessage_same s m src dst sn tipLen hs hd] at h
+    cases h
+    simp [added]
+  · rw [sendMessage_cross s m src dst sn dn tipLen hs hd hne] at h
+    cases h
+    cases hdr : s.sendDropped sn dn with
+    | true => simp [added_cross_dropped _ _ _ _ _ _ _ hdr]
+    | false => simp [added_cross_passed _ _ _ _ _ _ _ hdr, sendCount_dupl_zero s hdraws hz]
 
 /-- drop rate 0 on an enabled path: the message is queued (at least one copy) -/
 theorem send_drop_zero_delivers [LawfulTime T] (s s' : Sim σ T) (m : Msg) (src dst sn dn tipLen : Nat)
     (hs : amGet? src s.net.procLoc = some sn) (hd : amGet? dst s.net.procLoc = some dn) (hne : sn ≠ dn)
     (hdraws : ∀ r ∈ s.draws, LawfulTime.isDraw r) (hlen : 8 ≤ s.draws.length)
     (hz : s.net.dropRate = TimeOps.zero) (hcut : s.pathCut sn dn = false)
-    (h : s.sendMessage m src dst tipLen = .ok s') : 1 ≤ (added s s').length := sorry
+    (h : s.sendMessage m src dst tipLen = .ok s') : 1 ≤ (added s s').length := by
+  rw [sendMessage_cross s m src dst sn dn tipLen hs hd hne] at h
+  cases h
+  have hdr : s.sendDropped sn dn = false := by
+    rw [sendDropped_eq, hcut, hz, dr_lt_zero _ hdraws]; rfl
+  rw [added_cross_passed _ _ _ _ _ _ _ hdr]
+  simpa using (sendCount_bounds s hdraws (by omega)).1
 
 /-- drop rate above every draw (i.e. 1): nothing is queued -/
 theorem send_drop_one [LawfulTime T] (s s' : Sim σ T) (m : Msg) (src dst sn dn tipLen : Nat)
     (hs : amGet? src s.net.procLoc = some sn) (hd : amGet? dst s.net.procLoc = some dn) (hne : sn ≠ dn)
     (hone : ∀ r ∈ s.draws, TimeOps.lt r s.net.dropRate = true) (hlen : 1 ≤ s.draws.length)
-    (h : s.sendMessage m src dst tipLen = .ok s') : added s s' = [] := sorry
+    (h : s.sendMessage m src dst tipLen = .ok s') : added s s' = [] := by
+  rw [sendMessage_cross s m src dst sn dn tipLen hs hd hne] at h
+  cases h
+  have hdr : s.sendDropped sn dn = true := by
+    rw [sendDropped_eq, hone _ (dr_mem _ _ (by omega)), Bool.true_or]
+  exact added_cross_dropped _ _ _ _ _ _ _ hdr
 
 /-- every send, whatever its fate, is logged once, gets the next message id and bumps the id counter -/
 theorem send_logged_once (s s' : Sim σ T) (m : Msg) (src dst tipLen : Nat)
     (h : s.sendMessage m src dst tipLen = .ok s') :
     s'.net.messageCount = s.net.messageCount + 1 ∧
     ∃ sn dn rest, s'.trace = s.trace ++ (.sent s.clock s.net.messageCount sn src dn dst m) :: rest ∧
-      (rest = [] ∨ rest = [.dropped s.clock s.net.messageCount sn src dn dst m]) := sorry
+      (rest = [] ∨ rest = [.dropped s.clock s.net.messageCount sn src dn dst m]) := by
+  obtain ⟨sn, dn, hs, hd⟩ := sendMessage_ok_loc h
+  by_cases hne : sn = dn
+  · subst hne
+    rw [sendMessage_same s m src dst sn tipLen hs hd] at h
+    cases h
+    exact ⟨rfl, sn, sn, [], rfl, .inl rfl⟩
+  · rw [sendMessage_cross s m src dst sn dn tipLen hs hd hne] at h
+    cases h
+    cases hdr : s.sendDropped sn dn with
+    | true =>
+      rw [cross_dropped _ _ _ _ _ _ _ hdr]
+      exact ⟨rfl, sn, dn, _, rfl, .inr rfl⟩
+    | false =>
+      rw [cross_passed _ _ _ _ _ _ _ hdr]
+      exact ⟨rfl, sn, dn, [], rfl, .inl rfl⟩
 
 /-! ### link controls -/
 
+-- the statements below do not use the time arithmetic; `[TimeOps T]` is part of their signature all the same
+set_option linter.unusedSectionVars false
+
 theorem disableLink_directional (s : Sim σ T) (a b x y : Nat) :
-    (s.disableLink a b).pathCut x y = (s.pathCut x y || (x == a && y == b)) := sorry
+    (s.disableLink a b).pathCut x y = (s.pathCut x y || (x == a && y == b)) := by
+  rw [Bool.eq_iff_iff]
+  simp [pathCut, disableLink, netSet, log, mem_linkInsert, or_assoc]
 
 theorem enableLink_directional (s : Sim σ T) (a b x y : Nat) :
-    (s.enableLink a b).net.disabledLinks.contains (x, y) = (s.net.disabledLinks.contains (x, y) && !(x == a && y == b)) := sorry
+    (s.enableLink a b).net.disabledLinks.contains (x, y) = (s.net.disabledLinks.contains (x, y) && !(x == a && y == b)) := by
+  rw [Bool.eq_iff_iff]
+  simp [enableLink, netSet, log, List.mem_filter]
 
 /-- a partition cuts both directions of every cross pair -/
 theorem partition_cuts_both (s : Sim σ T) (g1 g2 : List Nat) (a b : Nat) (ha : a ∈ g1) (hb : b ∈ g2) :
-    (s.makePartition g1 g2).pathCut a b = true ∧ (s.makePartition g1 g2).pathCut b a = true := sorry
+    (s.makePartition g1 g2).pathCut a b = true ∧ (s.makePartition g1 g2).pathCut b a = true := by
+  have h := mem_partition_links g1 g2 s.net.disabledLinks a b ha hb
+  simp only [pathCut, makePartition, netSet, log, Bool.or_eq_true, List.contains_eq_mem, decide_eq_true_eq]
+  exact ⟨.inr h.1, .inr h.2⟩
 
 /-- reset heals all links and keeps rates and delays -/
 theorem reset_heals_keeps_rates (s : Sim σ T) (x y : Nat) :
     s.netReset.pathCut x y = false ∧ s.netReset.net.dropRate = s.net.dropRate ∧ s.netReset.net.duplRate = s.net.duplRate ∧
     s.netReset.net.corruptRate = s.net.corruptRate ∧ s.netReset.net.minDelay = s.net.minDelay ∧
-    s.netReset.net.maxDelay = s.net.maxDelay := sorry
+    s.netReset.net.maxDelay = s.net.maxDelay := by
+  simp [pathCut, netReset, netSet, log]
 
 theorem dropIncoming_directional (s : Sim σ T) (n x y : Nat) :
-    (s.dropIncoming n).pathCut x y = (s.pathCut x y || y == n) := sorry
+    (s.dropIncoming n).pathCut x y = (s.pathCut x y || y == n) := by
+  rw [Bool.eq_iff_iff]
+  simp [pathCut, dropIncoming, netSet, log, mem_setInsert, or_assoc, or_comm]
 
 theorem dropOutgoing_directional (s : Sim σ T) (n x y : Nat) :
-    (s.dropOutgoing n).pathCut x y = (s.pathCut x y || x == n) := sorry
+    (s.dropOutgoing n).pathCut x y = (s.pathCut x y || x == n) := by
+  rw [Bool.eq_iff_iff]
+  simp [pathCut, dropOutgoing, netSet, log, mem_setInsert, or_assoc, or_comm, or_left_comm]
 
 end Sim
 end Anysystem
